@@ -4,6 +4,7 @@ unchanged preserves every file's content (and needs no Keep write at all).
 -/
 import ArvVerif.Proofs.C09_Load
 import ArvVerif.Proofs.C09_Glue
+import ArvVerif.Proofs.C09_Group
 import ArvVerif.Props.C09
 namespace ArvVerif.C09
 
@@ -216,6 +217,40 @@ theorem C09_load_marshal_checked (txt : Bytes) (M : C10.Manifest)
       exact hmain _ g1 g2 g3 g4
     · cases hs
 
+/-- **Load, then save unchanged — no side condition.** For every text inside the published grammar whose
+sizes the loader can represent, in which no path is both file and directory and whose blocks Keep holds:
+`loadManifest` succeeds, and for the directory list of the loaded tree (`groupTree`: the root and the
+loader's directories, each with the loader's files directly in it — `C09_loader_tree_wellformed` and
+`C09_loader_makes_ancestors` show it satisfies every hypothesis on the list) saving succeeds whatever Keep
+would answer, attempts no write, and the saved text assigns to every path of the original manifest, and to
+no other, exactly the original bytes. (The model driver marshals `treeOf (fsOfTree …)`, C08's tables built
+from the same loaded tree; that this list also satisfies the hypotheses is decided per executed case by
+`glueOK`, see `C09_load_marshal_checked`.) -/
+theorem C09_load_marshal_total (txt : Bytes) (M : C10.Manifest)
+    (hvalid : C10.parseSpec txt = some M) (hfit : ∀ s ∈ M, C10.FitsFs s) (htree : C10.TreeConsistent M)
+    (k : Keep) (hk : KeepOK hash k)
+    (hblocks : ∀ s ∈ M, ∀ b ∈ s.blocks, ∃ x, k.store b.text = some x ∧ x.length = b.size) :
+    ∃ tr txt' L', C10.fsLoad txt = some tr ∧
+      marshal9 hash max k (groupTree tr) = (k, groupTree tr, MRes.ok txt') ∧ treeLines (groupTree tr) = some L' ∧
+      (∀ d ∈ groupTree tr, ∀ f ∈ d.files,
+        C10.pathOf (prefixOf d.path) f.1 ∈ C10.pathsOf M ∧
+        C08.abs k.store f.2 = C10.fileContent (blkOf k.store) M (C10.pathOf (prefixOf d.path) f.1) ∧
+        C10.fileContent (blkOf k.store) (streamsOf L') (C10.pathOf (prefixOf d.path) f.1) =
+          C10.fileContent (blkOf k.store) M (C10.pathOf (prefixOf d.path) f.1)) ∧
+      (∀ p ∈ C10.pathsOf M, ∃ d ∈ groupTree tr, ∃ f ∈ d.files, p = C10.pathOf (prefixOf d.path) f.1) ∧
+      (NoDel (groupTree tr) → parse9 txt' = some L') := by
+  have hsize : ∀ s ∈ M, ∀ b ∈ s.blocks, sizeOfLoc b.text = b.size := by
+    intro s hs b hb
+    have h1 := parseSpec_blocks txt M hvalid s hs b hb
+    have h2 : b.size < C10.two31 := (hfit s hs).1 b hb
+    unfold sizeOfLoc
+    rw [(C10.fsLocator_spec b.text b h1 h2).1]
+  obtain ⟨tr, hload, hmain⟩ := C09_load_marshal_preserves (max := max) (hash := hash) txt M hvalid hfit htree k hk hblocks
+    sizeOfLoc hsize
+  obtain ⟨g1, g2, g3, g4⟩ := groupTree_ok tr (fsLoad_wf txt tr hload) (fsLoad_cover txt tr hload)
+  obtain ⟨txt', L', r⟩ := hmain _ g1 g2 g3 g4
+  exact ⟨tr, txt', L', hload, r⟩
+
 /-! ## non-vacuity -/
 
 def exLoc : Bytes := C10.str "aaaaaaaaaaaaaaaaaaaaaaaaaaaaaaaa+3"
@@ -269,5 +304,10 @@ example : glueOK (fun _ => 3) ⟨[], [([[97]], [⟨exLoc, 1, 2⟩, ⟨exLoc, 0, 
 example : glueOK (fun _ => 3) ⟨[], [([[97]], [⟨exLoc, 1, 2⟩, ⟨exLoc, 0, 2⟩]), ([[98]], [])]⟩
     [⟨[], [([97], ⟨[Seg.stored exLoc 3 0 2, Seg.stored exLoc 3 1 2], 4, 0⟩), ([98], FileNode.empty)], 0⟩] = false := by
   decide +kernel
+
+/-- the canonical list of the example text is the list of the examples above -/
+example : (match C10.fsLoad exTxt with
+    | some tr => (groupTree tr).map (fun d => (d.path, d.files.map (·.1), d.nsub))
+    | none => []) = [([], [[97], [98]], 0)] := by decide +kernel
 
 end ArvVerif.C09
